@@ -30,7 +30,7 @@ PROP = dict(
     regen=['consts', 'csvprofile'],
     theorems=['Fit.C19.C19_columns', 'Fit.C19.C19_columns_trim', 'Fit.C19.C19_tables', 'Fit.C19.C19_field_roundtrip_raw', 'Fit.C19.C19_raw_roundtrip_partial', 'Fit.C19.C19_scaled_roundtrip', 'Fit.C19.C19_sequences_partial',
               'Fit.C19.C19_scalar_roundtrip_raw', 'Fit.C19.C19_scaled_roundtrip_profile', 'Fit.C19.C19_array_roundtrip', 'Fit.C19.C19_field_roundtrip_value',
-              'Fit.C19.C19_unknown_field_roundtrip', 'Fit.C19.C19_dev_field_roundtrip_partial', 'Fit.C19.C19_dev_float_scale_witness', 'Fit.C19.C19_subfield_roundtrip', 'Fit.C19.C19_removes_expansion_targets',
+              'Fit.C19.C19_unknown_field_roundtrip', 'Fit.C19.C19_dev_field_roundtrip', 'Fit.C19.C19_dev_float_scale_fixed', 'Fit.C19.C19_subfield_roundtrip', 'Fit.C19.C19_removes_expansion_targets',
               'Fit.C19.C19_roundtrip_partial'],
     families=[dict(name='csv', prop=True)],
     extra=_extra,
@@ -47,6 +47,6 @@ PROP = dict(
 
 TEXT = dict(
     technique='Lean 4 proof on a cell-level model of fit_to_csv.go / csv_to_fit.go over the regenerated profile table + differential tie driving the real converters in-process (FITToCSVConv as decoder listener with message copy, CSVToFITConv, decode)',
-    text='C19_columns / _trim for any list of lines; C19_tables (regenerated profile and lookup tables consistent, kernel-decided); cell level: C19_scalar_roundtrip_raw, C19_array_roundtrip, C19_field_roundtrip_raw / _value, C19_scaled_roundtrip_profile (default scaled mode, unconditional for the profile: arithmetic discharged by C12), C19_unknown_field_roundtrip (verbose), C19_dev_field_roundtrip_partial (outside the class of KF-C19-6), C19_subfield_roundtrip (substitution, placeholder, reversal), C19_removes_expansion_targets; file level: C19_roundtrip_partial / C19_sequences_partial for chains of files whose messages consist of known fields (scalar/array, raw/unscaled/scaled) and unknown fields/messages (kept with verbose, dropped without), any number of files; the model is compared with the real converters on generated FIT files over all profile messages (CSV structure, written messages, sequences) and the property predicate is evaluated on the implementation output.',
+    text='C19_columns / _trim for any list of lines; C19_tables (regenerated profile and lookup tables consistent, kernel-decided); cell level: C19_scalar_roundtrip_raw, C19_array_roundtrip, C19_field_roundtrip_raw / _value, C19_scaled_roundtrip_profile (default scaled mode, unconditional for the profile: arithmetic discharged by C12), C19_unknown_field_roundtrip (verbose), C19_dev_field_roundtrip, C19_subfield_roundtrip (substitution, placeholder, reversal), C19_removes_expansion_targets; file level: C19_roundtrip_partial / C19_sequences_partial for chains of files whose messages consist of known fields (scalar/array, raw/unscaled/scaled) and unknown fields/messages (kept with verbose, dropped without), any number of files; the model is compared with the real converters on generated FIT files over all profile messages (CSV structure, written messages, sequences) and the property predicate is evaluated on the implementation output.',
     note='Partial: the text layer (strconv, encoding/csv, unicode) is assumed; developer fields and sub-field reversal are proved cell by cell, their message-level composition is tied by the correspondence (C19_roundtrip_full stays a def).',
 )
